@@ -471,6 +471,12 @@ func genEncRec(r *Rng, mode string, p EncProfile) EncRec {
 	if mode == "color" {
 		cfg.TagWidth = 1 + r.Intn(5)
 		cfg.MinWidth = []int{36, 36, 16, 50, 200, 165}[r.Intn(6)]
+		if r.Chance(8) { // out-of-range settings arrive after the valid ones and are ignored
+			cfg.WidthAfter = []int{6, 7, 64, -1, -100}[r.Intn(5)]
+		}
+		if r.Chance(5) {
+			cfg.MinAfter = []int{15, 1, -4}[r.Intn(3)]
+		}
 	}
 	cls := p.TextClass
 	if r.Chance(30) {
